@@ -11,6 +11,9 @@ import MosnVerif.Model.PoolRecover
 import MosnVerif.Drive.C08H2
 import MosnVerif.Drive.C08Dubbo
 import MosnVerif.Drive.C08H1
+import MosnVerif.Drive.C08Set
+import MosnVerif.Drive.C08Trail
+import MosnVerif.Model.NeedMoreLive
 /-! driver of C08 (malformed input contained): see `run` for the case kinds. Core Lean only. -/
 namespace MosnVerif.Drive.C08
 open MosnVerif.Drive MosnVerif.Model.Framing MosnVerif.Model.FrameBytes MosnVerif.Model.FrameChk MosnVerif.Model.KVBlock
@@ -39,9 +42,10 @@ def dec (proto bytes : String) (impl : List String) : String :=
   | some c1, some c0, some b, [o] =>
     let allowed := dedup [showOut (c1 b).out, showOut (c0 b).out]
     let agree := allowed.contains o
-    let spec := match parseOutcome o with
+    -- [c08l9] a need-more answer must be honest: never on a buffer no continuation can complete (stuck connection)
+    let spec := (match parseOutcome o with
       | some oc => specContained b.length oc
-      | none => false
+      | none => false) && !(o.startsWith "needmore" && MosnVerif.Model.NeedMoreLive.hopeless proto b)
     s!"{if agree then "A" else "D"} {if spec then "S" else "V"} {joinWith "|" allowed} alloc={(c1 b).alloc}"
   | _, _, _, _ => "E E bad-case"
 
@@ -238,14 +242,17 @@ exactly these bytes, Decode calls recorded by the codec wrapper.  Model: the reg
 script of recorded decoder answers (each checked against the decoder model) must make exactly as many Decode calls and
 leave as many bytes.  Predicate (independent of the regenerated loop): Dispatch returned; at most `|bytes|+1` Decode
 calls; every call but the last delivered a frame that drained something (nothing is decoded behind a failure or a
-need-more); the buffer did not grow. -/
+need-more); the buffer did not grow; [c08l9] a final need-more is not on bytes that can never become a frame. -/
 def disp (proto bytes : String) (impl : List String) : String :=
   match chkOf proto (fun _ => true), chkOf proto (fun _ => false), unhex bytes, impl with
   | some c1, some c0, some b, [outcome, trace, left] =>
     let steps := if trace == "-" then [] else trace.splitOn ","
     let frameOk (t : String) : Bool := t.startsWith "f" && ((t.drop 1).toNat?.getD 0) > 0
     let spec := outcome == "ret" && decide (steps.length ≤ b.length + 1) && steps.dropLast.all frameOk &&
-      (match left.toNat? with | some l => decide (l ≤ b.length) | none => false)
+      (match left.toNat? with | some l => decide (l ≤ b.length) | none => false) &&
+      -- [c08l9] Dispatch does not end in "need more data" on bytes no continuation can complete (stuck connection)
+      !(steps.getLast? == some "n" &&
+        MosnVerif.Model.NeedMoreLive.hopeless proto (b.drop (b.length - (left.toNat?.getD 0))))
     match walk c1 c0 b steps with
     | none => s!"D {if spec then "S" else "V"} step-not-of-the-decoder-model"
     | some script =>
@@ -280,6 +287,8 @@ def run (caseToks impl : List String) : String :=
   | ["hpack", mx, bytes] => hpackK mx bytes impl
   | ["hpackx", mx, blocks] => hpackX mx blocks impl
   | ["h2up", method, frames] => h2up method frames impl
+  | ["h2trail", side, toks] => MosnVerif.Drive.C08Trail.h2trail side toks impl
+  | ["h2set", setting, hdr, body] => MosnVerif.Drive.C08Set.h2set setting hdr body impl
   | ["disp", proto, bytes] => disp proto bytes impl
   | ["pool", api, st] => pool api st impl
   | ["dmeta", listener, kinds, nargs, _] => MosnVerif.Drive.C08Dubbo.dmeta listener kinds nargs impl
